@@ -39,7 +39,14 @@ def rule_delegation(ctx):
                 ctx.violated('R1', fi, 'return ' + T.show(v)[:120], 'Dataset.%s must be _apply_dimarray_axis(%r, axis=axis, **kwargs)' % (name, name), node=p.node)
             else:
                 ctx.holds('R1', 'Dataset.%s -> per-variable %s' % (name, name))
-    # _apply_dimarray_axis
+    # _apply_dimarray_axis: the structural reading (an accumulating loop over the keys) on trial; the function's scenario table decides when the loop is written otherwise
+    from ..report import on_trial
+    ctx.rule('R2', 'per-variable application skips the variables lacking the dimension', 1)
+    on_trial(ctx, _apply_axis_structural, [DS + '_apply_dimarray_axis'], ('R2',), '_apply_dimarray_axis')
+    _rule_delegation_rest(ctx)
+
+
+def _apply_axis_structural(ctx):
     fi = ctx.fn(DS + '_apply_dimarray_axis')
     ev = run(ctx, fi, mode='fork', facts={T.mkcmp('is', ('call', ('attr', P_('**kwargs'), 'pop'), (const('axis'), T.CONST_NONE), ()), T.CONST_NONE): False})
     ok = False
@@ -61,6 +68,9 @@ def rule_delegation(ctx):
         ctx.holds('R2', '_apply_dimarray_axis skips variables lacking the dimension')
     else:
         ctx.violated('R2', fi, '_apply_dimarray_axis', 'the named reduction must be applied to every variable that has the dimension, and only to those')
+
+
+def _rule_delegation_rest(ctx):
     # take_axis / sort_axis
     ra = ctx.fn(DS + 'reduce_axis')
     fi = ctx.fn(DS + 'take_axis')
